@@ -9,3 +9,7 @@ CONSTANTS
   WrapSet = "mid"
   SlRange = 2
   EmitAst = FALSE
+  ExcludeFilterOnNonArray = TRUE
+  ExcludeMergeNoOverride = TRUE
+  ExcludeNotBeforePipe = TRUE
+  ExcludePipeIntoLiteral = TRUE
